@@ -325,9 +325,16 @@ def judge(run, cases, res, status, verbose=False):
                       % (cid, c["kind"], len(o["renderings"]), c.get("procs", 1), o.get("distinct", 0), spec, json.dumps(o.get("diff"))))
             if o.get("mutated"):
                 run.failing({"kind": "input-mutated", "resource": c["kind"]}, [slim(c)],
-                            "the generator wrote into the objects it was given (%s fixture): %s" % (c["kind"], "; ".join(o["mutated"])[:500]),
+                            "the generator wrote into the objects it was given (%s fixture): %s" % (c["kind"], "; ".join(o["mutated"])[:600]),
                             theorem="Determ.Proofs.history_independent (hypothesis: the step leaves its inputs alone)")
-            elif not spec:
+            files_differ = len({json.dumps(r["files"]) for r in o["renderings"]}) > 1 or any(r["changed"] or r["reloaded"] for r in o["renderings"][1:])
+            if files_differ and (o.get("diff") or {}).get("between_processes"):
+                d = o["diff"]
+                run.failing({"kind": "process-dependent-output", "resource": c["kind"]}, [slim(c)],
+                            "two processes render the same %s to different bytes (each process agrees with itself): %s line %s: %r vs %r"
+                            % (c["kind"], d.get("file"), d.get("line"), d.get("a"), d.get("b")),
+                            theorem="Determ.Model.spec_ok over the renderings of 3 processes (C09_spec_ok_sound)")
+            elif files_differ:
                 d = o.get("diff") or {}
                 site = d.get("site", "unattributed")
                 if not d:
